@@ -430,7 +430,8 @@ void Circuit::safe_insert_repeat_block(
     target_buf.append_tail(GateTarget{(uint32_t)(repeat_count >> 32)});
     blocks.push_back(block);
     auto targets = target_buf.commit_tail();
-    operations.insert(operations.begin() + index, CircuitInstruction(GateType::REPEAT, {}, targets, tag));
+    operations.insert(
+        operations.begin() + index, CircuitInstruction(GateType::REPEAT, {}, targets, tag_buf.take_copy(tag)));
 }
 
 void Circuit::safe_append_reversed_targets(CircuitInstruction instruction, bool reverse_in_pairs) {
